@@ -131,6 +131,8 @@ GenLines ==
   \cup {[lab |-> "", toks |-> <<"jal", n>>, tgt |-> n] : n \in GenNames}
   \cup {[lab |-> "", toks |-> <<"beq", "r0", "0", n>>, tgt |-> n] : n \in GenNames}
   \cup {[lab |-> "", toks |-> <<"yield">>, tgt |-> ""]}
+  \* a device name that is spelled like two of the labels: quoted text is never a label reference
+  \cup {[lab |-> "", toks |-> <<"sbn", "HASH(\"fa\")", "HASH(\"b\")", "Setting", "1">>, tgt |-> ""]}
 GenValid(t) == /\ \A n \in GenNames : DefCount(t, n) <= 1
                /\ ~UndefinedTarget(t)
                /\ \E k \in 1..Len(t) : t[k].tgt # ""
